@@ -35,11 +35,39 @@ def valid_traffic(rng, tg, head):
     return out
 
 
+class Stalled(BaseException):
+    pass
+
+
+def huge_count(rng):
+    """a well-framed list-carrying message whose declared element count is astronomically larger than its body"""
+    import io
+    from ipaddress import IPv6Address
+    from skepticoin.networking import messages as M
+    from skepticoin.serialization import stream_serialize_vlq
+    which = rng.choice(['getblocks', 'getblocks', 'inventory', 'peers'])
+
+    def mk(n):
+        if which == 'getblocks':
+            return M.GetBlocksMessage([bytes([7]) * 32] * n, bytes([9]) * 32)
+        if which == 'inventory':
+            return M.InventoryMessage([M.InventoryItem(M.DATA_BLOCK, bytes([7]) * 32)] * n)
+        return M.PeersMessage([M.Peer(0, IPv6Address('::FFFF:10.9.9.9'), 2412)] * n)
+    a, b = mk(2).serialize(), mk(3).serialize()
+    pos = [i for i in range(len(a)) if a[i] != b[i]][0]
+    f = io.BytesIO()
+    stream_serialize_vlq(f, rng.choice([2 ** 21, 2 ** 31, 2 ** 34, 2 ** 40, 2 ** 50, 2 ** 57, 2 ** 63 - 1]))
+    body = a[:pos] + f.getvalue() + a[pos + 1:]
+    return 'huge-count:' + which, nodeharness.frame(M.MessageHeader(0, 9, 0, 1).serialize() + body)
+
+
 def corrupt(rng, payloads):
     """one adversarial stream (bytes) + label"""
     fr = nodeharness.frame
     r = rng.random()
     name, p = rng.choice(payloads)
+    if r < 0.06:
+        return huge_count(rng)
     if r < 0.15:
         b = bytearray(fr(p))
         for _ in range(rng.choice([1, 1, 3])):
@@ -77,7 +105,7 @@ def run(tier, seed):
     ck.rule = ('sessions of one attacker connection against a real node with two greeted bystander peers: optional greeting, '
                'then 1-3 streams built from valid traffic (all seven message types, duplicate block, structurally invalid '
                'blocks of every mutant family, invalid transaction) by bit flips, truncation, splicing, wrong lengths, unknown '
-               'message/data types, garbage payloads, empty frames, or sent as-is without a greeting; delivered in random '
+               'message/data types, garbage payloads, empty frames, list-carrying messages declaring 2^21..2^63 elements with a short body (4 s stall guard per session), or sent as-is without a greeting; delivered in random '
                'chunks; after each session the event loop, chain state, pool, store and bystanders are inspected, and a '
                'bystander request must still be answered; non-trivial = distinct stream')
     ck.trusted += ['extraction + OCaml driver (frame decoding comparison)', 'simnet', 'chain generator and mutators']
@@ -108,6 +136,11 @@ def run(tier, seed):
             net.clock.t = max(net.clock.t, fresh_block.view.time + 1)
             fresh_tx = chaingen.signed_tx(keys, head.utxo, [av[1][0]], [(av[1][1][0], keys.pks[3])]) if len(av) > 1 else None
             base = sn.observe()
+            import signal
+
+            def on_alarm(signum, frm):
+                raise Stalled()
+            old_handler = signal.signal(signal.SIGALRM, on_alarm)
             for sess in range(nsessions):
                 atk = simnet.RawPeer(net, host='10.6.%d.%d' % (sess // 250, sess % 250 + 1)).connect(sn.node)
                 sn.node.step()
@@ -130,17 +163,26 @@ def run(tier, seed):
                 data = b''.join(s[1] for s in streams)
                 # random chunking
                 pos = 0
-                while pos < len(data):
-                    n = rng.choice([1, 3, 8, 50, 1024, len(data)])
-                    try:
-                        atk.send(data[pos:pos + n])
-                    except OSError:
-                        break
-                    pos += n
-                    sn.pump()
-                sn.pump()
-                after = sn.observe()
                 rp = {'session': sess, 'greeted': greeted, 'streams': [(s[0], s[1].hex()) for s in streams]}
+                signal.setitimer(signal.ITIMER_REAL, 4.0)      # a session normally takes milliseconds
+                try:
+                    while pos < len(data):
+                        n = rng.choice([1, 3, 8, 50, 1024, len(data)])
+                        try:
+                            atk.send(data[pos:pos + n])
+                        except OSError:
+                            break
+                        pos += n
+                        sn.pump()
+                    sn.pump()
+                    signal.setitimer(signal.ITIMER_REAL, 0)
+                except (Stalled, MemoryError) as e:
+                    signal.setitimer(signal.ITIMER_REAL, 0)
+                    ck.case((data,), kind='stalled')
+                    ck.violation('event-loop-stalled', 'input from one peer (%s, %d bytes) keeps the event loop busy for more than '
+                                 '4 s (%s): no other peer is served meanwhile' % (label, len(data), type(e).__name__), rp)
+                    break
+                after = sn.observe()
                 ck.case((data,), kind=('greeted/' if greeted else 'ungreeted/') + label.split('+')[0],
                         sample={'greeted': greeted, 'streams': [s[0] for s in streams], 'bytes': len(data),
                                 'attacker_dropped': not sn.connected(-1) if False else None} if len(ck.samples) < 4 else None)
@@ -169,12 +211,19 @@ def run(tier, seed):
                     for fpayload in nodeharness.split_frames(data)[:3]:
                         frame_reqs.append(('frame', [], fpayload))
                         f = __import__('io').BytesIO(fpayload)
+                        signal.setitimer(signal.ITIMER_REAL, 4.0)
                         try:
                             h = M.MessageHeader.stream_deserialize(f)
                             m = M.Message.stream_deserialize(f)
                             frame_wants.append([1, render.r_msg_header(h), render.r_msg(m)])
                         except Exception:
                             frame_wants.append([0])
+                        except Stalled:
+                            frame_wants.append([0])
+                            ck.violation('event-loop-stalled', 'decoding one %d-byte frame takes more than 4 s' % len(fpayload), rp)
+                        finally:
+                            signal.setitimer(signal.ITIMER_REAL, 0)
+            signal.signal(signal.SIGALRM, old_handler)
     if r.ok and frame_reqs:
         outs = model.run_batch(frame_reqs)
         nd = 0
